@@ -31,6 +31,15 @@ type Chunking struct {
 	// Empty > 1: every Empty-th Read call returns (0, nil) without
 	// delivering anything - allowed by the io.Reader contract.
 	Empty int `json:"empty_read_every,omitempty"`
+	// EmptyRun > 0: once EmptyRunAt bytes have been delivered, the next
+	// EmptyRun Read calls return (0, nil) in a row before data flows again
+	// (a reader waiting for input that polls).
+	EmptyRun   int `json:"empty_run,omitempty"`
+	EmptyRunAt int `json:"empty_run_at,omitempty"`
+	// Transient: the fault at FaultAt is returned once ((0, err)); later
+	// calls deliver the rest of the data as if nothing had happened. A caller
+	// that got an error from Read has been told about a failure.
+	Transient bool `json:"fault_is_transient,omitempty"`
 }
 
 // FaultError returns the error value a reader under c injects.
@@ -72,6 +81,12 @@ func (c Chunking) String() string {
 	if c.Empty > 1 {
 		s += fmt.Sprintf(" empty-read-every-%d", c.Empty)
 	}
+	if c.EmptyRun > 0 {
+		s += fmt.Sprintf(" %d-empty-reads-in-a-row@%d", c.EmptyRun, c.EmptyRunAt)
+	}
+	if c.Transient {
+		s += " transient"
+	}
 	return s
 }
 
@@ -86,6 +101,7 @@ type Reader struct {
 	Delivered int
 	Calls     int
 	faulted   bool
+	emptyDone int
 	// MaxReq is the largest buffer the library offered.
 	MaxReq int
 }
@@ -109,7 +125,11 @@ func (r *Reader) Read(p []byte) (int, error) {
 	if r.c.Empty > 1 && r.Calls%r.c.Empty == 0 {
 		return 0, nil
 	}
-	if r.c.FaultAt >= 0 && r.pos >= r.c.FaultAt {
+	if r.c.EmptyRun > 0 && r.pos >= r.c.EmptyRunAt && r.emptyDone < r.c.EmptyRun {
+		r.emptyDone++
+		return 0, nil
+	}
+	if r.c.FaultAt >= 0 && r.pos >= r.c.FaultAt && !(r.c.Transient && r.faulted) {
 		r.faulted = true
 		return 0, r.c.FaultError()
 	}
@@ -137,16 +157,19 @@ func (r *Reader) Read(p []byte) (int, error) {
 		n = rem
 	}
 	limit := -1
-	if r.c.FaultAt >= 0 {
+	if r.c.FaultAt >= 0 && !(r.c.Transient && r.faulted) {
 		limit = r.c.FaultAt - r.pos
 		if n > limit {
 			n = limit
 		}
 	}
+	if r.c.EmptyRun > 0 && r.emptyDone < r.c.EmptyRun && r.pos < r.c.EmptyRunAt && n > r.c.EmptyRunAt-r.pos {
+		n = r.c.EmptyRunAt - r.pos
+	}
 	copy(p, r.data[r.pos:r.pos+n])
 	r.pos += n
 	r.Delivered += n
-	if r.c.FaultAt >= 0 && r.pos >= r.c.FaultAt && r.c.FaultWithData {
+	if r.c.FaultAt >= 0 && r.pos >= r.c.FaultAt && r.c.FaultWithData && !(r.c.Transient && r.faulted) {
 		r.faulted = true
 		return n, r.c.FaultError()
 	}
@@ -164,6 +187,11 @@ func DrawChunking(d D) Chunking {
 	c := drawChunking(d)
 	if d.Int(0, 5, "stutter") == 0 {
 		c.Empty = []int{2, 3, 5, 17}[d.Int(0, 3, "every")]
+	}
+	if d.Int(0, 7, "emptyrun") == 0 {
+		// a long pause: hundreds of empty reads in a row somewhere in the input
+		c.EmptyRun = []int{99, 100, 101, 150, 400}[d.Int(0, 4, "emptyrunlen")]
+		c.EmptyRunAt = d.Int(0, 300, "emptyrunat")
 	}
 	return c
 }
@@ -200,5 +228,7 @@ func StandardChunkings() []Chunking {
 	l.Sizes = []int{1, 2, 3, 5, 1, 11}
 	st := NoFault("fixed", 5)
 	st.Empty = 2
-	return []Chunking{NoFault("whole", 0), NoFault("one", 0), NoFault("fixed", 3), NoFault("fixed", 7), l, NoFault("dataeof", 0), st}
+	pause := NoFault("fixed", 9)
+	pause.EmptyRun, pause.EmptyRunAt = 250, 33
+	return []Chunking{NoFault("whole", 0), NoFault("one", 0), NoFault("fixed", 3), NoFault("fixed", 7), l, NoFault("dataeof", 0), st, pause}
 }
